@@ -108,7 +108,7 @@ AnyDiskTotal(R) == \E j \in Slots : IsDisk(j) /\ SlotSeq[j].s = "total" /\ R.v[j
 CodeHasRow(B, C, proc, i) ==
     IF IsDisk(i) THEN
         /\ AnyDiskTotal(B) /\ AnyDiskTotal(C)                               \* "skip if disk_usage_total does not exist"
-        /\ (B.v[DiskTotal(i)] # NA \/ C.v[DiskTotal(i)] # NA)                \* fields are enumerated from the totals
+        /\ (B.v[DiskTotal(i)] # NA \/ (C.v[DiskTotal(i)] # NA /\ C.v[DiskTotal(i)] > 0))   \* fields are enumerated from the totals ("best" total, initially 0)
         /\ ~(Val(B, i) = 0 /\ Val(C, i) = 0)
     ELSE /\ Recorded(B, i) /\ Recorded(C, i)
          /\ (SlotSeq[i].g = "processing_time" => proc)
@@ -150,8 +150,6 @@ PctMag(a, m) ==
 PctClear(a, m) == a >= (m + 9999) \div 10000                                \* 100 a / m >= 10^-2
 PctEdge(a, m) == m % 10000 = 0 /\ a = m \div 10000
 
-NoTie == [tie |-> FALSE, edge |-> FALSE]
-
 CodeDiffCell(b, c, dir) ==
     LET d == c - b
         a == Abs(d)
@@ -162,6 +160,8 @@ CodeDiffCell(b, c, dir) ==
         mk |-> IF clear THEN Mark(Sgn(d), dir) ELSE "neutral",
         tie |-> m.tie, edge |-> DiffEdge(a)]
 
+(* CodePctCell: the code's relative difference (Diff %): 100 (c - b) / b with the sign of the quotient, and its       *)
+(* zero-baseline behaviour (_safe_divide: 0, printed 0.00% neutral); the switches select the repaired variants       *)
 CodePctCell(b, c, dir) ==
     LET d == c - b
         a == Abs(d)
@@ -292,10 +292,11 @@ Spec == Init /\ [][Eval]_vars
 TableHolds(X, Y, proc) ==
     LET dom == RowSlots(X, Y, proc)
     IN /\ RowPerCommonMetric(dom, X, Y, proc)
-       /\ RowSlots(Y, X, proc) = dom
-       /\ \A i \in dom : /\ RowFails(CodeRow(X, Y, i), X, Y) = {}
-                          /\ SwapFlipsDiff(CodeRow(X, Y, i), CodeRow(Y, X, i))
-                          /\ SwapFlipsPct(CodeRow(X, Y, i), CodeRow(Y, X, i), Val(X, i), Val(Y, i), TRUE)
+       /\ RowPerCommonMetric(RowSlots(Y, X, proc), Y, X, proc)
+       /\ \A i \in dom : RowFails(CodeRow(X, Y, i), X, Y) = {}
+       /\ \A i \in dom \cap RowSlots(Y, X, proc) :
+               /\ SwapFlipsDiff(CodeRow(X, Y, i), CodeRow(Y, X, i))
+               /\ SwapFlipsPct(CodeRow(X, Y, i), CodeRow(Y, X, i), Val(X, i), Val(Y, i), TRUE)
 
 SelfHolds(X, proc) == \A i \in RowSlots(X, X, proc) : NoDifference(CodeRow(X, X, i))
 
